@@ -87,6 +87,16 @@ pub fn observe_transform(_v: &[f64]) -> String {
 #[cfg(feature = "kurbo")]
 pub fn observe_path(types: &str, coords: &[(i64, i64)]) -> String {
     let c = build(types, coords);
+    path_obs(&c)
+}
+
+#[cfg(not(feature = "kurbo"))]
+fn path_obs(_c: &Contour) -> String {
+    "nokurbo".to_string()
+}
+
+#[cfg(feature = "kurbo")]
+fn path_obs(c: &Contour) -> String {
     match guarded(|| c.to_kurbo()) {
         Err(_) => "panic".to_string(),
         Ok(Err(e)) => format!("err {}", format!("{:?}", e).replace(' ', "_")),
@@ -226,6 +236,133 @@ fn random_contour(rng: &mut Rng) -> String {
     s.chars().map(|c| if c != 'o' && c != 'm' && rng.chance(1, 4) { c.to_ascii_uppercase() } else { c }).collect()
 }
 
+
+
+// ---------------------------------------------------------------- glif documents -> path (stream G)
+//
+// `C20 G <fmt> <types> <x,y;..> <names> => ok <el>.. | anchor <b>,<b> | rej <kind> | shape c=<n> a=<m> | panic`
+// The path the PARSER's contour converts to, for a document in format 1 or 2 with names on some points (`names`:
+// one 0/1 per point) and coordinates that may coincide.  The driver derives the expected path from the point list of
+// the XML (this line's input), not from the parsed `Contour`: a parser that drops, merges or moves a point shows here.
+
+pub fn glif_document(fmt: u32, types: &str, coords: &[(i64, i64)], names: &str) -> String {
+    let mut s = format!("<?xml version=\"1.0\" encoding=\"UTF-8\"?>\n<glyph name=\"a\" format=\"{}\">\n<outline>\n<contour>\n", fmt);
+    for (i, ((ch, (x, y)), n)) in types.chars().zip(coords).zip(names.chars().chain(std::iter::repeat('0'))).enumerate() {
+        s.push_str(&format!("<point x=\"{}\" y=\"{}\" type=\"{}\"", x, y, typ_name(ch)));
+        if ch.is_ascii_uppercase() {
+            s.push_str(" smooth=\"yes\"");
+        }
+        if n == '1' {
+            s.push_str(&format!(" name=\"p{}\"", i));
+        }
+        s.push_str("/>\n");
+    }
+    s.push_str("</contour>\n</outline>\n</glyph>\n");
+    s
+}
+
+pub fn observe_glif(fmt: u32, types: &str, coords: &[(i64, i64)], names: &str) -> String {
+    let doc = glif_document(fmt, types, coords, names);
+    match guarded(|| Glyph::parse_raw(doc.as_bytes())) {
+        Err(_) => "panic".to_string(),
+        Ok(Err(e)) => {
+            let k = match e {
+                norad::error::GlifLoadError::Parse(k) => format!("{:?}", k),
+                other => format!("other:{:?}", other).replace(' ', "_"),
+            };
+            format!("rej {}", k)
+        }
+        Ok(Ok(g)) => {
+            if g.contours.len() == 1 && g.anchors.is_empty() && g.components.is_empty() {
+                path_obs(&g.contours[0])
+            } else if g.contours.is_empty() && g.anchors.len() == 1 && g.components.is_empty() {
+                format!("anchor {},{}", fb(g.anchors[0].x), fb(g.anchors[0].y))
+            } else {
+                format!("shape c={} a={}", g.contours.len(), g.anchors.len())
+            }
+        }
+    }
+}
+
+fn emit_glif(out: &mut dyn Write, fmt: u32, types: &str, coords: &[(i64, i64)], names: &str) {
+    writeln!(out, "C20 G {} {} {} {} => {}", fmt, types, coords_tok(coords), names, observe_glif(fmt, types, coords, names)).unwrap();
+}
+
+/// coordinate assignments in which points COINCIDE (index-derived or random coordinates never do)
+fn coincide(kind: usize, types: &str, base: &[(i64, i64)]) -> Vec<(i64, i64)> {
+    let n = base.len();
+    let t: Vec<char> = types.chars().map(|c| c.to_ascii_lowercase()).collect();
+    let mut v = base.to_vec();
+    match kind {
+        0 => {}                                   // pairwise distinct
+        1 => v[n - 1] = v[0],                     // the closing point repeats the first
+        2 => v.iter_mut().for_each(|p| *p = (6, -4)), // all points equal
+        3 => (0..n).for_each(|i| v[i] = base[i / 2]), // stacked pairs
+        4 => {
+            // every off-curve sits on the next point that is not an off-curve (cyclically)
+            for i in 0..n {
+                if t[i] == 'o' {
+                    if let Some(k) = (1..n).map(|d| (i + d) % n).find(|j| t[*j] != 'o') {
+                        v[i] = base[k];
+                    }
+                }
+            }
+        }
+        5 => {
+            // first = second = last
+            v[n - 1] = v[0];
+            if n > 1 {
+                v[1] = v[0];
+            }
+        }
+        _ => (0..n).for_each(|i| v[i] = base[i % 2]), // only two distinct positions, alternating
+    }
+    v
+}
+
+fn name_mask(kind: usize, n: usize, rng: &mut Rng) -> String {
+    (0..n)
+        .map(|i| {
+            let on = match kind {
+                0 => false,
+                1 => i == 0,
+                2 => i == n / 2,
+                3 => i == n - 1,
+                4 => true,
+                _ => rng.chance(1, 3),
+            };
+            if on { '1' } else { '0' }
+        })
+        .collect()
+}
+
+fn gen_glif(tier: &str, rng: &mut Rng, out: &mut dyn Write) {
+    // every type sequence of 1..=4 points x both formats x names none/first/middle/last/all x 7 coincidence patterns
+    for len in 1..=4usize {
+        enumerate(len, &mut |s| {
+            let base = distinct_coords(rng, len, 300);
+            for fmt in [1u32, 2] {
+                for nk in 0..5 {
+                    let names = name_mask(nk, len, rng);
+                    for ck in 0..7 {
+                        emit_glif(out, fmt, s, &coincide(ck, s, &base), &names);
+                    }
+                }
+            }
+        });
+    }
+    // longer, mostly legal contours with random names and coincidence patterns
+    let n = if tier == "thorough" { 200_000 } else { 25_000 };
+    for _ in 0..n {
+        let s = random_contour(rng);
+        let len = s.chars().count();
+        let base = distinct_coords(rng, len, 500);
+        let fmt = if rng.chance(1, 2) { 1 } else { 2 };
+        let names = name_mask(rng.below(6), len, rng);
+        let ck = rng.below(7);
+        emit_glif(out, fmt, &s, &coincide(ck, &s, &base), &names);
+    }
+}
 
 // ---------------------------------------------------------------- the default-feature build
 
@@ -591,6 +728,8 @@ pub fn gen(tier: &str, seed: u64, out: &mut dyn Write) {
         let coords = distinct_coords(&mut rng, s.chars().count(), span);
         emit_path(out, &s, &coords);
     }
+    // 2g. glif documents (both formats, names on points, coinciding coordinates): expected path from the XML
+    gen_glif(tier, &mut rng, out);
     // 3n. near-shape transforms (identity, zero, translation, scale-only, ... +- a hair) on the origin and on huge points
     gen_near_shapes(&mut rng, out);
     // 3a. transforms, structured: every pattern of the six coefficients over {0, 1, -1, other} (4^6 = 4096
